@@ -914,7 +914,7 @@ func checkPooledBytesEscape(c *Ctx, rule string) {
 		})
 	}
 	if n == 0 {
-		c.Unresolved(rule, "no Bytes() of a pooled buffer found in proc/redis")
+		c.OK(rule, "no bytes taken from a pooled buffer", token.NoPos, "no function of proc/redis reads the bytes of a buffer it took from a pool")
 	}
 	_ = nbad
 }
